@@ -7,6 +7,7 @@ import (
 	"fmt"
 	"strconv"
 	"strings"
+	"unicode/utf8"
 
 	"github.com/PelicanPlatform/classad/classad"
 )
@@ -605,40 +606,46 @@ func parseAndInsertExpression(ad *classad.ClassAd, exprStr string) error {
 
 // tryInsertLiteral attempts fast parsing of simple literal values
 // This mirrors HTCondor's fast path optimizations in getClassAd()
+//
+// Every recogniser here is conservative: it fires only on a text the full
+// ClassAd parser reads as that very literal (optionally negated, surrounded by
+// blanks), so taking the shortcut never changes an attribute's value. Anything
+// else -- `"a" + "b"`, 007, 1., 0x1.8p1, 1_0.5, a non-ASCII look-alike of
+// true/false, a string with invalid UTF-8 -- is left to the parser.
 func tryInsertLiteral(ad *classad.ClassAd, attr, valueStr string) error {
-	// Boolean literals
-	switch strings.ToUpper(strings.TrimSpace(valueStr)) {
-	case "TRUE":
+	trimmed := strings.TrimSpace(valueStr)
+
+	// Boolean literals: the lexer's keywords are ASCII, matched case-insensitively
+	if equalFoldASCII(trimmed, "true") {
 		_ = ad.Set(attr, true) // ClassAd.Set always returns nil, safe to ignore
 		return nil
-	case "FALSE":
+	}
+	if equalFoldASCII(trimmed, "false") {
 		_ = ad.Set(attr, false) // ClassAd.Set always returns nil, safe to ignore
 		return nil
 	}
 
 	// Number literals
-	if len(valueStr) > 0 && (valueStr[0] == '-' || (valueStr[0] >= '0' && valueStr[0] <= '9')) {
-		// Try integer first
-		if !strings.Contains(valueStr, ".") {
-			if val, err := strconv.ParseInt(strings.TrimSpace(valueStr), 10, 64); err == nil {
-				_ = ad.Set(attr, val) // ClassAd.Set always returns nil, safe to ignore
-				return nil
-			}
-		} else {
-			// Try float
-			if val, err := strconv.ParseFloat(strings.TrimSpace(valueStr), 64); err == nil {
-				_ = ad.Set(attr, val) // ClassAd.Set always returns nil, safe to ignore
-				return nil
-			}
+	switch classifyNumberLiteral(trimmed) {
+	case numberLiteralInteger:
+		if val, err := strconv.ParseInt(trimmed, 10, 64); err == nil {
+			_ = ad.Set(attr, val) // ClassAd.Set always returns nil, safe to ignore
+			return nil
+		}
+	case numberLiteralReal:
+		if val, err := strconv.ParseFloat(trimmed, 64); err == nil {
+			_ = ad.Set(attr, val) // ClassAd.Set always returns nil, safe to ignore
+			return nil
 		}
 	}
 
 	// String literals (quoted)
-	trimmed := strings.TrimSpace(valueStr)
 	if len(trimmed) >= 2 && trimmed[0] == '"' && trimmed[len(trimmed)-1] == '"' {
-		// Simple string without escape sequences
+		// Simple string: no escape sequence, no interior quote (`"a" + "b"` is an
+		// expression, `"a" "b"` a concatenation), and valid UTF-8 (the lexer
+		// replaces invalid bytes by U+FFFD)
 		unquoted := trimmed[1 : len(trimmed)-1]
-		if !strings.Contains(unquoted, "\\") {
+		if !strings.ContainsAny(unquoted, "\\\"") && utf8.ValidString(unquoted) {
 			_ = ad.Set(attr, unquoted) // ClassAd.Set always returns nil, safe to ignore
 			return nil
 		}
@@ -646,6 +653,87 @@ func tryInsertLiteral(ad *classad.ClassAd, attr, valueStr string) error {
 
 	// Not a simple literal, caller should use full parser
 	return fmt.Errorf("not a simple literal")
+}
+
+// equalFoldASCII reports whether s equals lower (an all-lower-case ASCII word)
+// when ASCII letters are compared case-insensitively. Unlike strings.EqualFold
+// and strings.ToUpper it never maps a non-ASCII rune (U+017F, U+212A, ...) onto
+// an ASCII letter.
+func equalFoldASCII(s, lower string) bool {
+	if len(s) != len(lower) {
+		return false
+	}
+	for i := 0; i < len(s); i++ {
+		c := s[i]
+		if c >= 'A' && c <= 'Z' {
+			c += 'a' - 'A'
+		}
+		if c != lower[i] {
+			return false
+		}
+	}
+	return true
+}
+
+const (
+	numberLiteralNone = iota
+	numberLiteralInteger
+	numberLiteralReal
+)
+
+// classifyNumberLiteral recognises exactly the number tokens of the ClassAd
+// lexer, optionally preceded by one '-':
+//
+//	integer:  0 | [1-9][0-9]*                      (no leading zeros)
+//	real:     [0-9]* '.' [0-9]+ ( [eE] [+-]? [0-9]+ )?
+//
+// Reals without a '.' (1e5) and everything strconv accepts beyond this grammar
+// (hex floats, underscores, "1.", "inf") are not classified and go to the parser.
+func classifyNumberLiteral(s string) int {
+	i := 0
+	if i < len(s) && s[i] == '-' {
+		i++
+	}
+	start := i
+	for i < len(s) && s[i] >= '0' && s[i] <= '9' {
+		i++
+	}
+	intDigits := i - start
+	if i == len(s) {
+		if intDigits == 0 || (intDigits > 1 && s[start] == '0') {
+			return numberLiteralNone
+		}
+		return numberLiteralInteger
+	}
+	if s[i] != '.' {
+		return numberLiteralNone
+	}
+	i++
+	fracStart := i
+	for i < len(s) && s[i] >= '0' && s[i] <= '9' {
+		i++
+	}
+	if i == fracStart {
+		return numberLiteralNone // a digit must follow the decimal point
+	}
+	if i == len(s) {
+		return numberLiteralReal
+	}
+	if s[i] != 'e' && s[i] != 'E' {
+		return numberLiteralNone
+	}
+	i++
+	if i < len(s) && (s[i] == '+' || s[i] == '-') {
+		i++
+	}
+	expStart := i
+	for i < len(s) && s[i] >= '0' && s[i] <= '9' {
+		i++
+	}
+	if i == expStart || i != len(s) {
+		return numberLiteralNone
+	}
+	return numberLiteralReal
 }
 
 // decodeOldClassAdString decodes the content between the quotes of an OLD-ClassAd
